@@ -272,6 +272,18 @@ unsigned int Model::AddBody(
   assert (lambda.size() > 0);
   assert (joint.mJointType != JointTypeUndefined);
 
+  // reject a duplicate name before anything is modified, so that a rejected
+  // call leaves the model unchanged
+  if (body_name.size() != 0
+      && mBodyNameMap.find(body_name) != mBodyNameMap.end()) {
+    std::ostringstream errormsg;
+    errormsg << "Error: Body with name '"
+             << body_name
+             << "' already exists!"
+             << std::endl;
+    throw Errors::RBDLError(errormsg.str());
+  }
+
   if (joint.mJointType == JointTypeFixed) {
     previously_added_body_id = AddBodyFixedJoint (*this,
                                parent_id,
@@ -492,6 +504,16 @@ unsigned int Model::AddBodyCustomJoint (
   const Body &body,
   std::string body_name)
 {
+  if (body_name.size() != 0
+      && mBodyNameMap.find(body_name) != mBodyNameMap.end()) {
+    std::ostringstream errormsg;
+    errormsg << "Error: Body with name '"
+             << body_name
+             << "' already exists!"
+             << std::endl;
+    throw Errors::RBDLError(errormsg.str());
+  }
+
   Joint proxy_joint (JointTypeCustom, custom_joint->mDoFCount);
   proxy_joint.custom_joint_index = mCustomJoints.size();
   //proxy_joint.mDoFCount = custom_joint->mDoFCount; //MM added. Otherwise
